@@ -33,30 +33,18 @@ theorem runToks_finished (c : Cfg) (r : RecvSt) (ts : List PMsg) (h : r.finished
 /-- The possible token sequences of one `send` call. -/
 inductive EmShape : List PMsg → Prop where
   | nothing : EmShape []
-  | part (n : Nat) (d : Bool) : EmShape [.partialMsg n d]
+  | part (w : Option Item) (n : Nat) (d : Bool) : EmShape [.partialMsg w n d]
   | data (it : Item) : EmShape [.msg it]
   | dataPorts (it : Item) : EmShape [.msg it, .requests it.halves]
 
 theorem portsPhase_shape (it : Item) (ab : Abort) : EmShape (portsPhase it ab).1 := by
   unfold portsPhase
-  split
-  · exact .data it
-  · split
-    · exact .data it
-    · exact .dataPorts it
+  (repeat' split) <;> first | exact .data it | exact .dataPorts it
 
 theorem stream_shape (c : Cfg) (it : Item) (ab : Abort) (derr : Bool) (n0 : Nat) (b : Int) :
     EmShape (sendItem.stream c it ab derr n0 b).2.1 := by
-  unfold sendItem.stream
-  split
-  · exact .part _ _
-  · split
-    · split
-      · exact .part _ _
-      · exact .part _ _
-    · split
-      · exact .part _ _
-      · exact portsPhase_shape it ab
+  unfold sendItem.stream abandoned
+  (repeat' split) <;> first | exact .part _ _ _ | exact .data it | exact portsPhase_shape it ab
 
 theorem sendItem_shape (c : Cfg) (big : Int) (it : Item) (ab : Abort) (derr : Bool) (n0 : Nat) :
     EmShape (sendItem c big it ab derr n0).2.1 := by
@@ -64,11 +52,7 @@ theorem sendItem_shape (c : Cfg) (big : Int) (it : Item) (ab : Abort) (derr : Bo
   split
   · exact .nothing
   · simp only []
-    split
-    · exact .nothing
-    · split
-      · exact .part _ _
-      · exact portsPhase_shape it ab
+    (repeat' split) <;> first | exact .nothing | exact .part _ _ _ | exact .data it | exact portsPhase_shape it ab
   · exact stream_shape ..
   · exact stream_shape ..
 
@@ -81,7 +65,7 @@ theorem entry_indep (c : Cfg) (r : RecvSt) (toks : List PMsg) (hs : EmShape toks
   subst hf
   cases hs with
   | nothing => simp [runToks, outcome]
-  | part n d =>
+  | part w n d =>
     simp only [outcome, runToks, rTok]
     (repeat' split) <;> simp_all
   | data it =>
@@ -110,7 +94,7 @@ theorem run_log (c : Cfg) (r : RecvSt) (log : List Entry) (hs : ∀ e ∈ log, E
 theorem outcome_length (c : Cfg) (toks : List PMsg) (hs : EmShape toks) : (outcome c toks).length ≤ 1 := by
   cases hs with
   | nothing => simp [outcome, runToks]
-  | part n d => simp only [outcome, runToks, rTok]; (repeat' split) <;> simp
+  | part w n d => simp only [outcome, runToks, rTok]; (repeat' split) <;> simp
   | data it => simp only [outcome, runToks, rTok]; (repeat' split) <;> simp
   | dataPorts it => simp only [outcome, runToks, rTok]; (repeat' split) <;> simp_all
 
